@@ -239,73 +239,128 @@ func (workingMem *WorkingMemory) Clone(cloneTable *pkg.CloneTable) (*WorkingMemo
 // variableSet is a set of variable nodes.
 type variableSet map[*Variable]struct{}
 
-// collectVariables adds the variables this expression reaches through its operands.
-func (e *Expression) collectVariables(into variableSet) {
-	if e == nil {
-
-		return
+// add puts the variables of the other set into this one.
+func (set variableSet) add(other variableSet) {
+	for variable := range other {
+		set[variable] = struct{}{}
 	}
-	e.LeftExpression.collectVariables(into)
-	e.RightExpression.collectVariables(into)
-	e.SingleExpression.collectVariables(into)
-	e.ExpressionAtom.collectVariables(into)
 }
 
-// collectVariables adds the variables this atom reaches: its own, those of the atom it continues, of the arguments of
-// its call and of its selector.
-func (e *ExpressionAtom) collectVariables(into variableSet) {
+// variableSets remembers the variables below every node visited so far, so that a node is visited once while
+// the index is built however many nodes reach it.
+type variableSets map[Node]variableSet
+
+// variablesBelow returns the variables this expression reaches through its operands.
+func (e *Expression) variablesBelow(sets variableSets) variableSet {
 	if e == nil {
 
-		return
+		return nil
 	}
-	e.Variable.collectVariables(into)
-	e.ExpressionAtom.collectVariables(into)
-	e.FunctionCall.collectVariables(into)
-	e.ArrayMapSelector.collectVariables(into)
+	if set, ok := sets[e]; ok {
+
+		return set
+	}
+	set := make(variableSet)
+	set.add(e.LeftExpression.variablesBelow(sets))
+	set.add(e.RightExpression.variablesBelow(sets))
+	set.add(e.SingleExpression.variablesBelow(sets))
+	set.add(e.ExpressionAtom.variablesBelow(sets))
+	sets[e] = set
+
+	return set
 }
 
-// collectVariables adds this variable, the variables it is a member or element of, and those of its selector.
-func (e *Variable) collectVariables(into variableSet) {
+// variablesBelow returns the variables this atom reaches: its own, those of the atom it continues, of the arguments
+// of its call and of its selector.
+func (e *ExpressionAtom) variablesBelow(sets variableSets) variableSet {
 	if e == nil {
 
-		return
+		return nil
 	}
-	if _, seen := into[e]; seen {
+	if set, ok := sets[e]; ok {
 
-		return
+		return set
 	}
-	into[e] = struct{}{}
-	e.Variable.collectVariables(into)
-	e.ArrayMapSelector.collectVariables(into)
+	set := make(variableSet)
+	set.add(e.Variable.variablesBelow(sets))
+	set.add(e.ExpressionAtom.variablesBelow(sets))
+	set.add(e.FunctionCall.variablesBelow(sets))
+	set.add(e.ArrayMapSelector.variablesBelow(sets))
+	sets[e] = set
+
+	return set
 }
 
-// collectVariables adds the variables of the arguments of this call.
-func (e *FunctionCall) collectVariables(into variableSet) {
+// variablesBelow returns this variable, the variables it is a member or element of, and those of its selector.
+func (e *Variable) variablesBelow(sets variableSets) variableSet {
 	if e == nil {
 
-		return
+		return nil
 	}
-	e.ArgumentList.collectVariables(into)
+	if set, ok := sets[e]; ok {
+
+		return set
+	}
+	set := make(variableSet)
+	set[e] = struct{}{}
+	set.add(e.Variable.variablesBelow(sets))
+	set.add(e.ArrayMapSelector.variablesBelow(sets))
+	sets[e] = set
+
+	return set
 }
 
-// collectVariables adds the variables of every argument.
-func (e *ArgumentList) collectVariables(into variableSet) {
+// variablesBelow returns the variables of the arguments of this call.
+func (e *FunctionCall) variablesBelow(sets variableSets) variableSet {
 	if e == nil {
 
-		return
+		return nil
 	}
+	if set, ok := sets[e]; ok {
+
+		return set
+	}
+	set := make(variableSet)
+	set.add(e.ArgumentList.variablesBelow(sets))
+	sets[e] = set
+
+	return set
+}
+
+// variablesBelow returns the variables of every argument.
+func (e *ArgumentList) variablesBelow(sets variableSets) variableSet {
+	if e == nil {
+
+		return nil
+	}
+	if set, ok := sets[e]; ok {
+
+		return set
+	}
+	set := make(variableSet)
 	for _, argument := range e.Arguments {
-		argument.collectVariables(into)
+		set.add(argument.variablesBelow(sets))
 	}
+	sets[e] = set
+
+	return set
 }
 
-// collectVariables adds the variables of the selector expression.
-func (e *ArrayMapSelector) collectVariables(into variableSet) {
+// variablesBelow returns the variables of the selector expression.
+func (e *ArrayMapSelector) variablesBelow(sets variableSets) variableSet {
 	if e == nil {
 
-		return
+		return nil
 	}
-	e.Expression.collectVariables(into)
+	if set, ok := sets[e]; ok {
+
+		return set
+	}
+	set := make(variableSet)
+	set.add(e.Expression.variablesBelow(sets))
+	sets[e] = set
+
+	return set
 }
 
 // registeredVariable returns the instance this working memory keeps for the given variable. The nodes of a
@@ -345,20 +400,18 @@ func (workingMem *WorkingMemory) IndexVariables() {
 
 	// A node is indexed under every variable it reaches through its children. The snapshot of a node embeds the
 	// snapshots of its children, so this is what searching every variable's snapshot in every node's stood for; the search
-	// took time of the third power of the nesting depth of selectors (a[a[a[...]]]).
+	// took time of the third power of the nesting depth of selectors (a[a[a[...]]]). The set of a node is the union of
+	// the sets of its children and is made once, so the work is of the size of the index.
+	sets := make(variableSets)
 	for _, expr := range workingMem.expressionSnapshotMap {
-		below := make(variableSet)
-		expr.collectVariables(below)
-		for variable := range below {
+		for variable := range expr.variablesBelow(sets) {
 			if registered, ok := workingMem.registeredVariable(variable); ok {
 				workingMem.expressionVariableMap[registered] = append(workingMem.expressionVariableMap[registered], expr)
 			}
 		}
 	}
 	for _, exprAtm := range workingMem.expressionAtomSnapshotMap {
-		below := make(variableSet)
-		exprAtm.collectVariables(below)
-		for variable := range below {
+		for variable := range exprAtm.variablesBelow(sets) {
 			if registered, ok := workingMem.registeredVariable(variable); ok {
 				workingMem.expressionAtomVariableMap[registered] = append(workingMem.expressionAtomVariableMap[registered], exprAtm)
 			}
